@@ -56,7 +56,7 @@ Definition pinned : variant := mkvariant false false false.     (* the pinned tr
 Definition repaired : variant := mkvariant true true true.      (* all three proposed fixes applied *)
 (* the code the correspondence check compares with; theorems never mention `cur`, so this is
    the only line to change when a proposed fix is applied to /repo *)
-Definition cur : variant := pinned.
+Definition cur : variant := repaired.
 
 (* id -1 stands for "a fresh id drawn from AbstractMessage.ids" *)
 Definition fresh_id : Z := (-1)%Z.
